@@ -436,7 +436,7 @@ class ProgGen:
                     args.append(('q', q))
                 else:
                     args.append(('lit', gen_literal(rng)))
-            return ('call', pr[0], args, None)
+            return ('call', pr[0], args, ('pm%d' % rng.randrange(20)) if rng.random() < 0.5 else None)
         if at_rule_level and self.f['types'] and isinstance(self.doc, dict) and 'Resources' in self.doc and r < 0.3:
             tn = rng.choice(TYPES)
             inner = None
